@@ -6,6 +6,9 @@ trees built from a depth-1 tree and a leaf or a function). Binding: each tree be
 emitted by the spec); systemize() is evaluated at x = 2, y = 3 (a log-variable), p = 1/4 and, for every dated occurrence, the sum of the
 A and B cells that refer to it in the row of that equation is compared with the spec's derivative tree evaluated by the harness
 (times y for occurrences of the log-variable). A function is either differentiated to that value or rejected (an exception).
+The same trees are observed in the stacked-time evaluator (eval_func / eval_jacob over three periods with different data per column, whole
+rows compared) and in the flat / nonflat steady evaluators (levels and changes, time 0 and time k); user context functions blend and
+prodsq are known to the spec by their definition.
 """
 import os, math, random
 import numpy as np
@@ -24,18 +27,34 @@ class Domain(Exception):
     pass
 
 
-def ev(e):
+def blend(u, v):
+    return 0.75 * u + 0.25 * v
+
+
+def prodsq(u, v):
+    return u * u * v
+
+
+CONTEXT = {"blend": blend, "prodsq": prodsq}
+
+
+def ev(e, env=None):
+    """Value of a tree; env(name, shift) gives the value of a dated occurrence (default: x = 2, y = 3 at every shift)."""
     k = e[0]
     if k == "num":
         return e[1][0] / e[1][1]
     if k == "par":
         return P
     if k == "var":
+        if env is not None:
+            return env(e[1], e[2])
         return X if e[1] == "x" else Y
     if k == "neg":
-        return -ev(e[1])
+        return -ev(e[1], env)
+    if k == "ufn":
+        return CONTEXT[e[1]](ev(e[2], env), ev(e[3], env))
     if k in ("add", "sub", "mul", "div"):
-        a, b = ev(e[1]), ev(e[2])
+        a, b = ev(e[1], env), ev(e[2], env)
         if k == "add":
             return a + b
         if k == "sub":
@@ -46,12 +65,12 @@ def ev(e):
             raise Domain()
         return a / b
     if k == "pow":
-        a, b = ev(e[1]), ev(e[2])
+        a, b = ev(e[1], env), ev(e[2], env)
         if a <= 1e-9:
             raise Domain()           # keep to positive bases: a^b with a <= 0 is outside the domain of the general rule
         return a ** b
     if k == "fn":
-        a = ev(e[2])
+        a = ev(e[2], env)
         f = e[1]
         if f == "log":
             if a <= 1e-9:
@@ -77,15 +96,15 @@ def ev(e):
             return float(scipy.stats.norm.pdf(a))
         raise MachineryError("unknown function " + f)
     if k == "fn2":
-        a, b = ev(e[2]), ev(e[3])
+        a, b = ev(e[2], env), ev(e[3], env)
         if abs(a - b) < 1e-9:
             raise Domain()           # kink
         return max(a, b) if e[1] == "maximum" else min(a, b)
     if k == "ifge":
-        a, b = ev(e[1]), ev(e[2])
+        a, b = ev(e[1], env), ev(e[2], env)
         if abs(a - b) < 1e-9:
             raise Domain()
-        return ev(e[3]) if a >= b else ev(e[4])
+        return ev(e[3], env) if a >= b else ev(e[4], env)
     raise MachineryError("unknown node %r" % (k,))
 
 
@@ -94,13 +113,13 @@ def build(texts):
              "!transition_equations"]
     lines += ["z%d = %s;" % (i, t) for i, t in enumerate(texts)]
     lines += ["x = 0.5*x{-1} + 1;", "y = 2*y{-1}^0.5;"]
-    m = ir.Simultaneous.from_string("\n".join(lines) + "\n")
+    m = ir.Simultaneous.from_string("\n".join(lines) + "\n", context=dict(CONTEXT))
     m.assign(x=X, y=Y, p=P, **{"z%d" % i: 1.0 for i in range(len(texts))})
     s = quiet(m.systemize)
     vec = m._invariant.dynamic_descriptor.system_vectors.transition_variables
     q2n = m.create_qid_to_name()
     cols = {(q2n[t.qid], t.shift): j for j, t in enumerate(vec)}
-    return np.asarray(s.A, dtype=float), np.asarray(s.B, dtype=float), cols
+    return np.asarray(s.A, dtype=float), np.asarray(s.B, dtype=float), cols, m
 
 
 def derivative_cells(A, B, cols, row, name, shift):
@@ -118,7 +137,7 @@ def derivative_cells(A, B, cols, row, name, shift):
 def check_batch(chk, batch, stats):
     texts = [o["text"] for _, o in batch]
     try:
-        A, B, cols = build(texts)
+        A, B, cols, m = build(texts)
     except Exception as ex:
         if len(batch) == 1:
             stats["rejected"] += 1            # the function / construct is rejected: allowed
@@ -146,17 +165,195 @@ def check_batch(chk, batch, stats):
                 chk.mismatch("aldi:no-cell", "z = %s: no cell of A or B refers to %s{%d} although the derivative is %r" % (out["text"], name, shift, e), payload)
                 break
             if math.isnan(g) or abs(g - e) > 1e-7 * max(1.0, abs(e)):
-                fns = sorted({n[1] for n in _nodes(sc["e"]) if n[0] in ("fn", "fn2")}) or ["rational"]
+                fns = sorted({n[1] for n in _nodes(sc["e"]) if n[0] in ("fn", "fn2", "ufn")}) or ["rational"]
                 chk.mismatch("aldi:" + "+".join(fns), "z = %s: derivative with respect to %s%s{%d} at x=2, y=3, p=1/4 is %r in systemize(), true value %r" % (
                     out["text"], "log " if name == "y" else "", name, shift, g, e), payload)
                 break
         stats["checked"] += 1
+    for f, args in ((check_stacked, ()), (check_steady, (True,)), (check_steady, (False,))):
+        try:
+            f(chk, m, batch, stats, *args)
+        except MachineryError:
+            raise
+        except Exception as ex:
+            if len(batch) == 1:
+                stats["rejected_other"] += 1
+                stats["rejected_examples"].setdefault(f.__name__ + ":" + type(ex).__name__, texts[0])
+            else:
+                for item in batch:
+                    check_batch_other(chk, item, stats, f, args)
+
+
+def check_batch_other(chk, item, stats, f, args):
+    try:
+        _, _, _, m = build([item[1]["text"]])
+    except Exception:
+        return
+    try:
+        f(chk, m, [item], stats, *args)
+    except MachineryError:
+        raise
+    except Exception as ex:
+        stats["rejected_other"] += 1
+        stats["rejected_examples"].setdefault(f.__name__ + ":" + type(ex).__name__, item[1]["text"])
+
+
+XS = (1.5, 2.0, 2.5, 1.25, 3.0)        # data of the stacked-time evaluator, columns 0..4 (columns 1..3 are solved for)
+YS = (3.0, 2.5, 2.0, 4.0, 3.5)
+COLS = (1, 2, 3)
+
+
+def _fns(tree):
+    return "+".join(sorted({n[1] for n in _nodes(tree) if n[0] in ("fn", "fn2", "ufn")}) or ["rational"])
+
+
+def _close(g, e, tol=2e-6):
+    return not math.isnan(g) and abs(g - e) <= tol * max(1.0, abs(e))
+
+
+def check_stacked(chk, m, batch, stats):
+    """Stacked-time simulation Jacobian (stacked_time._evaluators.create_evaluator(...).eval_jacob / eval_func) against the spec's derivative trees,
+    period by period at different data points; whole rows are compared, so placement is checked as well."""
+    from irispie.stacked_time import _evaluators as st_evaluators
+    from irispie.incidences.main import Token
+    from irispie import quantities as ir_quantities, equations as ir_equations
+    qs = m.get_quantities()
+    n2q = m.create_name_to_qid()
+    endog = [q.id for q in m.get_quantities(kind=ir_quantities.TRANSITION_VARIABLE)]
+    eqs = list(m.get_dynamic_equation_objects(kind=ir_equations.TRANSITION_EQUATION))
+    spots = tuple(Token(q, c) for c in COLS for q in endog)
+    evaluator = st_evaluators.create_evaluator(wrt_spots=spots, columns_to_eval=COLS, wrt_equations=eqs, all_quantities=qs, terminator=None, context=m.get_context())
+    data = np.full((max(q.id for q in qs) + 1, len(XS)), np.nan)
+    data[n2q["x"], :], data[n2q["y"], :], data[n2q["p"], :] = XS, YS, P
+    for i in range(len(batch)):
+        data[n2q["z%d" % i], :] = 1.0
+    with np.errstate(all="ignore"):
+        J = np.asarray(evaluator.eval_jacob(None, data.copy()).todense(), dtype=float)
+        F = np.asarray(evaluator.eval_func(None, data.copy()), dtype=float).ravel()
+    col_of = {(t.qid, t.shift): j for j, t in enumerate(spots)}
+    neq = len(eqs)
+    for i, (sc, out) in enumerate(batch):
+        payload = {"kind": "aldi-stacked", "text": out["text"], "tree": _plain(sc["e"])}
+        d = dict(out["d"])
+        bad = False
+        for ci, c in enumerate(COLS):
+            env = lambda n, sh, c=c: float(data[n2q[n], c + sh])
+            try:
+                val = ev(sc["e"], env)
+            except Domain:
+                stats["domain"] += 1
+                continue
+            r = i + neq * ci
+            zc = col_of[(n2q["z%d" % i], c)]
+            sgn = J[r, zc]
+            if abs(abs(sgn) - 1.0) > 1e-12:
+                # the tree itself cannot contain z, so the own derivative is +-1
+                chk.mismatch("aldi:stacked:own", "z = %s: the stacked-time Jacobian has %r for the equation's own left-hand side in period column %d" % (out["text"], sgn, c), payload)
+                bad = True
+                break
+            if not _close(F[r], sgn * (1.0 - val), 1e-9):
+                chk.mismatch("aldi:stacked:value:" + _fns(sc["e"]), "z = %s: residual in period column %d is %r, true value %r" % (out["text"], c, F[r], sgn * (1.0 - val)), payload)
+                bad = True
+                break
+            E = np.zeros(len(spots))
+            E[zc] = sgn
+            skip = set()
+            for (name, shift) in WRTS:
+                if c + shift not in COLS:
+                    continue
+                j = col_of[(n2q[name], c + shift)]
+                try:
+                    E[j] += -sgn * ev(d[(name, shift)], env) * (env("y", shift) if name == "y" else 1.0)
+                except Domain:
+                    skip.add(j)
+            for j in range(len(spots)):
+                if j in skip:
+                    continue
+                if not _close(J[r, j], E[j]):
+                    t = spots[j]
+                    chk.mismatch("aldi:stacked:" + _fns(sc["e"]), "z = %s: stacked-time Jacobian, equation in period column %d with respect to %s in column %d (x=%s, y=%s): %r, true value %r" % (
+                        out["text"], c, m.create_qid_to_name()[t.qid], t.shift, XS, YS, J[r, j], E[j]), payload)
+                    bad = True
+                    break
+            if bad:
+                break
+        stats["stacked"] += not bad
+
+
+def check_steady(chk, m, batch, stats, flat):
+    """Steady-state Jacobian (steadiers.evaluators.*SteadyEvaluator.eval_jacob) against the spec's derivative trees summed over the occurrences of a
+    variable; nonflat: level + shift*change paths (exp of it for the log-variable), equations at time 0 and at time k = 1."""
+    from irispie.steadiers import evaluators as sev
+    from irispie import quantities as ir_quantities, equations as ir_equations
+    m = m.copy()
+    qs = m.get_quantities()
+    n2q = m.create_name_to_qid()
+    q2n = m.create_qid_to_name()
+    endog = tuple(sorted(q.id for q in m.get_quantities(kind=ir_quantities.TRANSITION_VARIABLE)))
+    eqs = tuple(m.get_steady_equation_objects(kind=ir_equations.ENDOGENOUS_EQUATION))
+    variant = m._variants[0]
+    cls = sev.FlatSteadyEvaluator if flat else sev.NonflatSteadyEvaluator
+    with np.errstate(all="ignore"):
+        e_ = cls(endog, () if flat else endog, eqs, qs, variant, context=m.get_context())
+    order = list(e_.wrt_qids)
+    # the point: levels and changes in the maybelog space
+    lev = {"x": 1.75, "y": math.log(2.5)}
+    chg = {"x": 0.0 if flat else 0.125, "y": 0.0 if flat else math.log(1.25)}
+    guess_l = [lev.get(q2n[q], 1.0) for q in order]
+    guess_c = [chg.get(q2n[q], 0.0) for q in order]
+    guess = np.array(guess_l + ([] if flat else guess_c), dtype=float)
+    with np.errstate(all="ignore"):
+        J = np.asarray(e_.eval_jacob(guess), dtype=float)
+        F = np.asarray(e_.eval_func(guess), dtype=float).ravel()
+    nq, neq = len(order), len(eqs)
+    blocks = (0,) if flat else (0, 1)
+    for i, (sc, out) in enumerate(batch):
+        payload = {"kind": "aldi-steady", "flat": flat, "text": out["text"], "tree": _plain(sc["e"])}
+        d = dict(out["d"])
+        bad = False
+        for k in blocks:
+            def env(n, sh, k=k):
+                v = lev[n] + (k + sh) * chg[n]
+                return math.exp(v) if n == "y" else v
+            try:
+                val = ev(sc["e"], env)
+            except Domain:
+                stats["domain"] += 1
+                continue
+            r = i + neq * k
+            zc = order.index(n2q["z%d" % i])
+            sgn = J[r, zc]
+            if abs(abs(sgn) - 1.0) > 1e-12 or not _close(F[r], sgn * (1.0 - val), 1e-9):
+                chk.mismatch("aldi:steady:value:" + _fns(sc["e"]), "z = %s: %s steady evaluator at time %d has own derivative %r and residual %r (true residual %r)" % (
+                    out["text"], "flat" if flat else "nonflat", k, sgn, F[r], 1.0 - val), payload)
+                bad = True
+                break
+            for name in ("x", "y"):
+                try:
+                    dl = sum(-sgn * ev(d[(n_, sh)], env) * (env("y", sh) if n_ == "y" else 1.0) for (n_, sh) in WRTS if n_ == name)
+                    dc = sum(-sgn * (k + sh) * ev(d[(n_, sh)], env) * (env("y", sh) if n_ == "y" else 1.0) for (n_, sh) in WRTS if n_ == name)
+                except Domain:
+                    continue
+                j = order.index(n2q[name])
+                for what, g, e in (("level", J[r, j], dl),) + (() if flat else (("change", J[r, nq + j], dc),)):
+                    if not _close(g, e):
+                        chk.mismatch("aldi:steady:%s:%s:%s" % ("flat" if flat else "nonflat-time%d" % k, what, _fns(sc["e"])),
+                                     "z = %s: %s steady Jacobian, equation at time %d with respect to the %s of %s%s at levels x=1.75, y=2.5%s: %r, true value %r" % (
+                                         out["text"], "flat" if flat else "nonflat", k, what, "log " if name == "y" else "", name,
+                                         "" if flat else " and changes x: +0.125, y: *1.25", g, e), payload)
+                        bad = True
+                        break
+                if bad:
+                    break
+            if bad:
+                break
+        stats["steady_flat" if flat else "steady_nonflat"] += not bad
 
 
 def _nodes(e):
     yield e
     for c in e[1:]:
-        if isinstance(c, tuple) and c and isinstance(c[0], str) and c[0] in ("num", "par", "var", "neg", "add", "sub", "mul", "div", "pow", "fn", "fn2", "ifge"):
+        if isinstance(c, tuple) and c and isinstance(c[0], str) and c[0] in ("num", "par", "var", "neg", "add", "sub", "mul", "div", "pow", "fn", "fn2", "ifge", "ufn"):
             yield from _nodes(c)
 
 
@@ -177,7 +374,7 @@ def run(chk):
             continue
         items.append((st["sc"], st["out"]))
     os.remove(dump)
-    stats = {"checked": 0, "rejected": 0, "domain": 0, "rejected_examples": {}}
+    stats = {"checked": 0, "rejected": 0, "domain": 0, "rejected_examples": {}, "stacked": 0, "steady_flat": 0, "steady_nonflat": 0, "rejected_other": 0}
     items.sort(key=lambda so: so[1]["text"])
     for i in range(0, len(items), 20):
         check_batch(chk, items[i:i + 20], stats)
@@ -186,14 +383,16 @@ def run(chk):
     chk.sample({"tree": items[len(items) // 2][1]["text"], "spec_derivatives": {"%s{%d}" % k: _plain(v) for k, v in dict(items[len(items) // 2][1]["d"]).items()}})
     chk.replayed += stats["checked"]
     chk.no_claim += stats["rejected"] + stats["domain"]
+    chk.notes.update({"trees_checked_stacked_time_jacobian": stats["stacked"], "trees_checked_flat_steady_jacobian": stats["steady_flat"],
+                      "trees_checked_nonflat_steady_jacobian": stats["steady_nonflat"], "evaluator_raised": stats["rejected_other"]})
     chk.notes.update({"trees_checked": stats["checked"], "trees_rejected_by_irispie": stats["rejected"], "outside_domain_or_at_kink": stats["domain"],
                       "rejected_examples": stats["rejected_examples"], "trees_in_spec_run": total})
     chk.exhaustive = thorough
     chk.rule = ("all leaves and depth-1 trees over + - * / ^, unary minus, log exp sqrt logistic abs normal_cdf normal_pdf maximum minimum on leaves "
                 "{x, x{-1}, x{+1}, y (log-variable), y{-1}, p, 2, 1/2}, and depth-2 trees op(depth-1, leaf), op(leaf, depth-1), fn(depth-1) "
                 "(all of them in the thorough tier, a seeded 6% in the quick tier); a case is one tree with its 5 partial derivatives")
-    chk.assumptions = ["the evaluation point is x = 2, y = 3 at every shift (systemize evaluates at the stored steady values), p = 1/4; the stacked-time and steady "
-                       "Jacobians have no public accessor and are exercised through C05/C06",
+    chk.assumptions = ["the evaluation point is x = 2, y = 3 at every shift (systemize evaluates at the stored steady values), p = 1/4 for systemize(); the stacked-time evaluator is given x = (1.5, 2, 2.5, 1.25, 3), y = (3, 2.5, 2, 4, 3.5) over five columns, "
+                       "the steady evaluators x = 1.75 (+0.125 per period), y = 2.5 (x1.25 per period)",
                        "primitive function values (math/scipy) and the tree evaluator of the harness are trusted; a^b only for positive bases; kinks excluded"]
 
 
